@@ -125,17 +125,46 @@ func TestC11Sequential(t *testing.T) {
 		if _, err := mc.Read(mbuf); err != nil {
 			t.Fatalf("marker hello: %v", err)
 		}
+		// The marker remote has an open, accepted connection: every datagram it sends must come
+		// out of that connection. One that does not while a later one does was lost by the
+		// listener (loopback sockets do not drop at these volumes, and never selectively).
+		syncNo := 0
 		sync1 := func() {
-			if _, err := marker.Write([]byte("M-sync")); err != nil {
+			syncNo++
+			want := fmt.Sprintf("M-sync-%d", syncNo)
+			if _, err := marker.Write([]byte(want)); err != nil {
 				t.Fatal(err)
 			}
-			_ = mc.SetReadDeadline(time.Now().Add(5 * time.Second))
-			n, err := mc.Read(mbuf)
-			if err != nil {
-				t.Fatalf("VERIF-INFRA: marker did not come back: %v", err)
-			}
-			if string(mbuf[:n]) != "M-sync" {
-				t.Fatalf("C11: the connection of the marker remote (%s) returned a %d-byte datagram that its remote never sent (a datagram of another remote was delivered to it)", mc.RemoteAddr(), n)
+			resent := false
+			for {
+				_ = mc.SetReadDeadline(time.Now().Add(1500 * time.Millisecond))
+				n, err := mc.Read(mbuf)
+				if err != nil {
+					if resent {
+						t.Fatalf("VERIF-INFRA: marker did not come back: %v", err)
+					}
+					resent = true
+					if _, err := marker.Write([]byte(want + "-again")); err != nil {
+						t.Fatal(err)
+					}
+					continue
+				}
+				got := string(mbuf[:n])
+				switch {
+				case got == want:
+					if resent { // only slow: take the repetition out of the connection as well
+						_ = mc.SetReadDeadline(time.Now().Add(3 * time.Second))
+						if n, err := mc.Read(mbuf); err != nil || string(mbuf[:n]) != want+"-again" {
+							t.Fatalf("VERIF-INFRA: the repeated marker did not come back (%q, %v)", mbuf[:max(n, 0)], err)
+						}
+						c.Label("marker/slow")
+					}
+					return
+				case resent && got == want+"-again":
+					t.Fatalf("C11: datagram %q of remote %s, whose connection is open and accepted, never came out of that connection although the next datagram of the same remote did: a datagram was dropped after it had been received", want, mc.RemoteAddr())
+				default:
+					t.Fatalf("C11: the connection of the marker remote (%s) returned a %d-byte datagram that its remote never sent (a datagram of another remote was delivered to it)", mc.RemoteAddr(), n)
+				}
 			}
 		}
 		remotes := make([]*net.UDPConn, nr)
